@@ -928,6 +928,14 @@ def class_call_hook(cls, extra=None, model=None):
                             module_values[key] = Unsupported
                     if module_values[key] is not Unsupported:
                         return module_values[key]
+                if r is not None and isinstance(getattr(r, 'node', None), ast.FunctionDef) and not hasattr(r, 'mro') and \
+                        getattr(r, 'cls', None) is None and not getattr(r.module, 'external', False):
+                    # a module level helper function used as a value (kept in a table of getters / converters)
+                    def function_value(*args, _f=r):
+                        params = [a.arg for a in _f.node.args.args]
+                        return Evaluator(dict(zip(params, args)), make(cls, _f.module), name_hook_for(_f.module, outer)).function(_f.node)
+                    function_value._miniexec = True
+                    return function_value
             parts = name.split('.')
             holder = None
             if len(parts) == 2 and (parts[0] in ('cls', 'self') or parts[0] == getattr(cls, 'name', None)) and hasattr(cls, 'resolve_var'):
